@@ -379,6 +379,11 @@ def run_c17(tier, seed, replay=None):
             return []
         res = vlib.pool_map(val, tasks, max(2, vlib.NCPU - 2))
         viols = [d for r in res for d in r]
+        # construction from ordered collections is part of the history too: its order must not depend on a hash map
+        import extra
+        gj, gv = extra.ctor_grid('std', work, binary, prop='C17')
+        jobs.append(gj)
+        viols += gv
         return finish(prop, tier, seed, jobs, viols, t0, work)
     finally:
         work.cleanup()
